@@ -554,6 +554,15 @@ theorem c10_x_compressor_lifetime :
       "i.client.StoreDocuments(ctx, total, docs, metas)"] ∧ compressorPoolUsesOutsideProcessDocuments = [] :=
   ⟨rfl, rfl⟩
 
+/-- support code on the way in and out.  The `/_bulk` route passes the request on untouched and nothing in the
+proxy's HTTP layer cuts a body short (the framing theorems are about the whole body the client sent).  The gRPC
+codec returns freshly allocated slices (`MarshalVT` / `proto.Marshal`), never a pooled buffer: gRPC keeps the
+slice until its transport has written it, which is the by-value discipline of `c10_handover_clone_safe`. -/
+theorem c10_x_support_code :
+    bulkRoute = ["h.bulk.ServeHTTP(w, req)", "return"] ∧ bulkBodyLimiters = [] ∧
+    codecMarshal = ["vtMessage.MarshalVT()", "proto.Marshal(vv)", "nil"] ∧ codecUsesBytesPool = false :=
+  ⟨rfl, rfl, rfl, rfl⟩
+
 /-! ## Non-vacuity -/
 
 section examples
